@@ -3,6 +3,8 @@ package carddav
 import (
 	"encoding/xml"
 	"fmt"
+	"strconv"
+	"strings"
 
 	"github.com/emersion/go-webdav/internal"
 )
@@ -149,7 +151,26 @@ type paramFilter struct {
 // https://tools.ietf.org/html/rfc6352#section-10.6
 type limit struct {
 	XMLName  xml.Name `xml:"urn:ietf:params:xml:ns:carddav limit"`
-	NResults uint     `xml:"nresults"`
+	NResults nresults `xml:"nresults"`
+}
+
+// nresults is the value of a CARDDAV:nresults element. encoding/xml leaves a
+// plain integer field at zero, without an error, when the element is empty;
+// a dedicated type makes an empty element a decoding error like any other
+// text that is not an unsigned number.
+type nresults uint
+
+func (n *nresults) UnmarshalText(b []byte) error {
+	v, err := strconv.ParseUint(strings.TrimSpace(string(b)), 10, 0)
+	if err != nil {
+		return fmt.Errorf("carddav: invalid nresults value: %v", err)
+	}
+	*n = nresults(v)
+	return nil
+}
+
+func (n nresults) MarshalText() ([]byte, error) {
+	return []byte(strconv.FormatUint(uint64(n), 10)), nil
 }
 
 // https://tools.ietf.org/html/rfc6352#section-8.7
